@@ -527,6 +527,34 @@ def _info_sets(out, specs, r):
                 out.fail("stream-sets:seed-list-of-another-stream-rewritten",
                          {"stream": "crn-twin", "now": list(ia.get_seed_values("crn-twin"))[:5]})
                 return
+            # the list configured last for a name is the list of that name
+            if list(ia.get_seed_values("crn-first")) != [700, 701]:
+                out.fail("stream-sets:replaced-seed-list-not-used",
+                         {"stream": "crn-first", "now": list(ia.get_seed_values("crn-first"))[:6]})
+                return
+            for r_ in (0, 1):
+                exc = _call(_seeded(ia.get_seeds()).update_seed, "crn-first", ia.get_stream("crn-first"), r_)
+                if exc is not None or ia.get_stream("crn-first").seed() != 700 + r_:
+                    out.fail("stream-sets:replaced-seed-list-not-used",
+                             {"stream": "crn-first", "r": r_, "exc": exc, "seed": ia.get_stream("crn-first").seed()})
+                    return
+            # an updater built on the configuration while it is still empty; the lists are configured afterwards
+            if type(r) is int and 0 <= r < 64:
+                ic = StreamSeedInformation()
+                ic.add_stream(nm0, MersenneTwister(specs[0][1]))
+                from pydsol.core.streams import StreamSeedUpdater
+                upd_c = StreamSeedUpdater(ic.get_seeds())
+                ic.add_seed_values(nm0, [310 + 3 * k for k in range(r + 2)])
+                exc = _call(upd_c.update_seed, nm0, ic.get_stream(nm0), r)
+                if exc is not None or ic.get_stream(nm0).seed() != 310 + 3 * r:
+                    out.fail("stream-sets:list-configured-after-the-updater-was-built-not-used",
+                             {"stream": nm0, "r": r, "exc": exc, "seed": ic.get_stream(nm0).seed(), "want": 310 + 3 * r})
+                    return
+                exc = _call(upd_c.update_seed, nm0, ic.get_stream(nm0), r + 2)
+                if exc is None:
+                    out.fail("stream-sets:list-configured-after-the-updater-was-built-not-used",
+                             {"stream": nm0, "r": r + 2, "beyond the list": "accepted"})
+                    return
             # the generator registered under a name is replaced by another object (e.g. between two replications):
             # the seed list is configured for the NAME and still applies
             if type(r) is int and 0 <= r < 64:
